@@ -277,7 +277,14 @@ def parseSkel (T : Table) (L : Ladder) (ts : List Tok) : Option Skel :=
   | some (t, []) => some t
   | _ => none
 
-/-! ### Lexer (name-safe fragment) -/
+/-! ### Lexer (name-safe fragment)
+
+A plain longest-match lexer.  It is NOT Lark's contextual lexer: Lark only considers the terminals
+the parser can accept in its current state, so `INT UN S` (keywords where only an atom can stand are
+read as identifiers) and `a|-b` (`|` then `-`, because `|-` is no terminal of rule `term`) parse in
+Lark, while this lexer produces keyword tokens / the token `|-` and the model parser answers `none`.
+No theorem is stated about this lexer; it is only used to compare the model with real printed texts
+whose identifiers are `NameOK`. -/
 
 def isIdStart (c : Char) : Bool := c.isAlpha || c = '_'
 def isIdChar (c : Char) : Bool := c.isAlphanum || c = '_'
